@@ -1,6 +1,7 @@
 import Rustemo.Model.Glr
 import Rustemo.Model.GlrCert
 import Rustemo.Model.GlrNoDupCert
+import Rustemo.Model.GlrLexCert
 import Rustemo.Model.Dump
 import Rustemo.Model.Print
 /-!
@@ -205,6 +206,11 @@ def handleGlr (d : Dump) (args : String) : String :=
   match args.splitOn " #" with
   | [req, mat] =>
     match fields req with
+    | ["lexdet", inp] =>
+      -- executable hypotheses of `lexDet_of_singleChar(_ws)` (Proofs/GlrLexDet*.lean): with them the GLR theorems of
+      -- Props/C03Bytes.lean hold for this table and input without the lexer hypothesis `LexDet` (full parse)
+      let env := envOfDump d (unhexBytes inp) (parseMatrix mat)
+      s!"lexdet singlechar={b01 (Cert.singleCharLexer env.g env.t)} bytes={b01 (glrCharEnvOk env)} ws={b01 (glrCharEnvWsOk env)}"
     | ["nodup", pp, inp] =>
       -- per-input certificate of `C03_engine_no_duplicates_from_poss_facts`: `PossFacts` of the result graph, no
       -- repeated root, acyclic unfolding (`Proofs/GlrNoDup4.lean`), evaluated on the model's result
